@@ -137,10 +137,70 @@ def run(rep, tier, seed):
             g["base"] = base_case
             g["case"] = Case("f%d" % (len(items)), [Step("parse_builder", 0, "xml_buffer", 1, "doc", 1, g["xml"])], timeout=60)
             items.append(g)
+    # ---- faults that only the type checker sees: compare after static analysis (Document entry point)
+    titems = []
+    TC_DECL = "\nint tcf(int p) { return p; }\nvoid tcr(int &r) { r = 1; }\n"
+    TYPE_FAULTS = {"label:guard": [" && tcf(gx0) > 0", " && (c0 == 1)", " && ((g0 = 1) > 0)", " && gx0 + gx0 < 3", " && tcf(c0) == 0"],
+                   "label:invariant": [" && tcf(gx0) > 0", " && (c0 == 1)", " && gx0 * 2 < 3"],
+                   "label:assignment": [", tcr(N)", ", N = 1", ", gx0 = c0", ", tcr(g0 + 1)", ", tcf(c0)"],
+                   "label:probability": [" + c0"], "label:exponentialrate": [" + c0"], "label:synchronisation": ["<drop-direction>"]}
+    for _ in range(1500 if quick else 30000):
+        m = mg.model()
+        xml = GM.render_xml(m, rng)
+        xml = xml.replace("</declaration>", esc(TC_DECL) + "</declaration>", 1)
+        bl = [b for b in blocks_of(xml) if b["kind"] in TYPE_FAULTS]
+        if not bl:
+            continue
+        locs = locators(xml)
+        b = rng.choice(bl)
+        if b["ordinal"] not in locs:
+            continue
+        f = rng.choice(TYPE_FAULTS[b["kind"]])
+        new = b["text"].rstrip().rstrip("!?") if f == "<drop-direction>" else b["text"] + f
+        xml2 = xml[:b["span"][0]] + esc(new) + xml[b["span"][1]:]
+        k = len(titems)
+        titems.append({"where": locs[b["ordinal"]], "fault": "type:" + (f if f.startswith("<") else new[len(b["text"]):].strip(" ,&")),
+                       "base": Case("tb%d" % k, [Step("parse_doc", 0, "xml_buffer", 1, 1, xml)], timeout=60),
+                       "case": Case("tf%d" % k, [Step("parse_doc", 0, "xml_buffer", 1, 1, xml2), Step("parse_builder", 1, "xml_buffer", 1, "doc", 0, xml2)], timeout=60)})
     bases = {}
     for g in items:
         bases[g["base"].id] = g["base"]
-    res = run_cases(list(bases.values()) + [g["case"] for g in items])
+    res = run_cases(list(bases.values()) + [g["case"] for g in items] + [g["base"] for g in titems] + [g["case"] for g in titems])
+    for g in titems:
+        rb, rf = res[g["base"].id], res[g["case"].id]
+        if rb["status"] != "ok" or rf["status"] != "ok":
+            bad = rf if rf["status"] != "ok" else rb
+            rep.crash(bad, g["case"] if bad is rf else g["base"])
+            continue
+        sb, sf, sbuild = rb["steps"][0], rf["steps"][0], rf["steps"][1]
+        if sb.get("exc") or sb["errors"]:
+            rep.inconclusive_case("base model not accepted")
+            continue
+        if sf.get("exc") or sbuild.get("exc") or sbuild["errors"] or not sf["errors"]:
+            rep.observe(None)      # rejected by the builder already (covered above) or not a fault at all
+            continue
+        kind, ti, i, lk = g["where"]
+        rep.observe(("typecheck", g["fault"], lk))
+        mb, mf = mask(sb["doc"], g["where"]), mask(sf["doc"], g["where"])
+        # document-wide summary flags (strict invariants, urgent transitions, ...) are derived from every label,
+        # the faulted one included: they are part of that label's own contribution
+        mb.pop("flags", None)
+        mf.pop("flags", None)
+        d = deepdiff.first_diff(mb, mf)
+        if d:
+            rep.violation("C16:document-disturbed(analysed):%s:%s" % (lk, re.sub(r"^/templates/\[\]", "T", d[0])),
+                          "type-level fault %r in a %s label changes %s outside that label after static analysis: %r -> %r" % (
+                              g["fault"], lk, d[0], d[1], d[2]), g["case"])
+        want = "/nta/template[%d]/%s[%d]/label[" % (ti + 1, "location" if kind == "loc" else "transition", i + 1)
+        for e in sf["errors"]:
+            if not e["path"].startswith(want):
+                rep.violation("C16:diagnostic-in-other-block(analysed):%s" % lk, "type-level fault %r in %s..]: error %r attributed to %s" % (
+                    g["fault"], want, e["msg"], e["path"]), g["case"])
+                break
+        own = lambda w: w["path"].startswith(want)
+        if sorted((w["msg"], w["path"]) for w in sf["warnings"] if not own(w)) != sorted((w["msg"], w["path"]) for w in sb["warnings"] if not own(w)):
+            rep.violation("C16:warnings-disturbed(analysed):%s" % lk, "type-level fault %r in a %s label changes the warnings of the "
+                          "rest of the document: %s -> %s" % (g["fault"], lk, [w["msg"] for w in sb["warnings"]][:3], [w["msg"] for w in sf["warnings"]][:3]), g["case"])
     depth_obs = {}
     for g in items:
         rb, rf = res[g["base"].id], res[g["case"].id]
